@@ -37,7 +37,7 @@ def run(run):
     run.add_stream("generated (catalogue, query) pairs", len(reqs), len(set(c[1] for c in cases)),
                    [{"text": c[1][:200], "expected": c[2][:200]} for c in cases[:: max(1, len(cases) // 3)][:3]], extra={"expected_outcomes": kinds})
     for kf in core.known_findings(PROP):
-        if kf["id"] in ("K-UNION-SCOPE", "K-DUP-NAMES", "K-SAME-TABLE-NAME") and kf.get("status") == "open":
+        if kf["id"] in ("K-UNION-SCOPE", "K-DUP-NAMES", "K-SAME-TABLE-NAME", "K-LATERAL-QUALIFIER") and kf.get("status") == "open":
             w = kf["witness"]
             a = core.run_impl(["LINEAGE %s | %s" % (w["catalogue"], stmt.cps(w["text"]))])[0]
             if a.split(" ; ASKED ")[0] != w["expected"]:
